@@ -133,6 +133,15 @@ class Box:
         return 7
 
 
+class _AccessOnly:
+    def __repr__(self):
+        return "ACCESS_ONLY"
+
+
+# observation marker: `snapshot(...)[key]` is evaluated but the sub-snapshot is not compared
+ACCESS_ONLY = _AccessOnly()
+
+
 def appended(obj, name, item):
     """obj after an in-place change of a list-valued field that was left to its default factory"""
     getattr(obj, name).append(item)
